@@ -388,6 +388,7 @@ DEFAULT_LITERALS = [
     ("binary", lit_str("bin")), ("binary", lit_str("")),
     ("enum", {"enum": "E1.B"}), ("enum", {"enum": "E1.C"}), ("enum", {"int": 5, "as": "enum"}), ("enum", {"int": 300, "as": "enum"}),
     ("td-i32", lit_int(44)), ("td-str", lit_str("td")), ("td-td-i32", lit_int(-45)), ("td-td-str", lit_str("tdtd")),
+    ("td-enum", {"enum": "E1.B"}), ("td-enum", {"int": 300, "as": "enum"}),
     ("td-list", {"list": [lit_str("p"), lit_str("q")]}), ("td-map", {"map": [[lit_str("k"), lit_int(7)]]}),
     ("list-i32", {"list": [lit_int(1), lit_int(2)]}), ("list-i32", {"list": []}), ("list-i64", {"list": [lit_int(1099511627776)]}),
     ("list-double", {"list": [{"int": 16777217}, lit_dbl("2.5")]}), ("list-string", {"list": [lit_str("a"), lit_str("b")]}),
@@ -428,6 +429,35 @@ def defaults_schema():
             k += 1
             names.append(name)
             defs.append({"d": "struct", "name": name, "fields": fields})
+    # defaults given by reference to a constant (scalar, through a typedef, enum member), in an exception, with escapes,
+    # next to a required field (only Default is observable there), and on annotated Rust types
+    defs.append({"d": "const", "name": "KInt", "ty": b("i32"), "value": lit_int(7)})
+    defs.append({"d": "const", "name": "KStr", "ty": b("string"), "value": lit_str("konst")})
+    defs.append({"d": "const", "name": "KDbl", "ty": b("double"), "value": lit_dbl("2.5")})
+    defs.append({"d": "const", "name": "KBig", "ty": b("i64"), "value": lit_int(5000000000)})
+    defs.append({"d": "struct", "name": "DfConst", "fields": [
+        {"id": 1, "req": "default", "ty": b("i32"), "name": "a", "default": {"const": "KInt"}},
+        {"id": 2, "req": "optional", "ty": ref("TdI32"), "name": "b", "default": {"const": "KInt"}},
+        {"id": 3, "req": "default", "ty": b("string"), "name": "c", "default": {"const": "KStr"}},
+        {"id": 4, "req": "optional", "ty": b("double"), "name": "d", "default": {"const": "KDbl"}},
+        {"id": 5, "req": "optional", "ty": b("i64"), "name": "e", "default": {"const": "KBig"}},
+        {"id": 6, "req": "optional", "ty": b("bool"), "name": "f", "default": {"bool": False}},
+        {"id": 7, "req": "optional", "ty": b("i64"), "name": "g", "default": lit_int(5000000001)}]})
+    defs.append({"d": "exception", "name": "DfEx", "fields": [
+        {"id": 1, "req": "default", "ty": b("string"), "name": "message", "default": lit_str("boom")},
+        {"id": 2, "req": "optional", "ty": b("i32"), "name": "code", "default": lit_int(-3)},
+        {"id": 3, "req": "default", "ty": ref("E1"), "name": "kind", "default": {"enum": "E1.C"}}]})
+    defs.append({"d": "struct", "name": "DfReq", "fields": [
+        {"id": 1, "req": "default", "ty": b("i32"), "name": "first", "default": lit_int(11)},
+        {"id": 2, "req": "required", "ty": b("string"), "name": "must"},
+        {"id": 3, "req": "optional", "ty": lst(b("string")), "name": "tags", "default": {"list": [lit_str("t")]}}]})
+    defs.append({"d": "struct", "name": "DfAnn", "fields": [
+        {"id": 1, "req": "default", "ty": b("string", **{"pilota.rust_type": "string"}), "name": "s", "default": lit_str("plain")},
+        {"id": 2, "req": "optional", "ty": b("binary", **{"pilota.rust_type": "vec"}), "name": "v", "default": lit_str("vec")},
+        {"id": 3, "req": "default", "ty": ref("TdTdStr"), "name": "t", "default": lit_str("tdtd")},
+        {"id": 4, "req": "default", "ty": mp(b("string"), b("i32"), **{"pilota.rust_type": "btree"}), "name": "m", "default": {"map": [[lit_str("k"), lit_int(1)]]}},
+        {"id": 5, "req": "optional", "ty": st(b("i32"), **{"pilota.rust_type": "btree"}), "name": "bs", "default": {"list": [lit_int(2), lit_int(1)]}}]})
+    names += ["DfConst", "DfReq", "DfAnn"]
     defs.append({"d": "struct", "name": "DfOuter", "fields": [
         {"id": 1, "req": "default", "ty": ref(names[0]), "name": "first"},
         {"id": 2, "req": "optional", "ty": ref(names[len(names) // 2]), "name": "mid"},
